@@ -13,8 +13,13 @@ PROP = dict(
           "array result (or mutated first argument) is compared with the scalar binding of the same name applied to the i-th elements - exact, "
           "or within 4 ulps of the largest magnitude involved for floating point where different code paths legitimately round differently. O3: one "
           "array argument one element too long must raise and leave every argument unchanged. distinct_nontrivial counts distinct (signature, "
-          "argument kinds, length) cases above the threshold, i.e. those that ran under the pool."),
-    assumptions=["what the scalar bindings return is compared with the C++ library only indirectly (C04..C18 monitors decide the C++ functions; the bindings are thin wrappers)",
+          "argument kinds, length) cases above the threshold, i.e. those that ran under the pool. Second workload (c20_scalar.py): 67 scalar "
+          "bindings (Vec2/3/4, Matrix33/44, Quat, Euler, Box3, Frustum, Line3, Plane3 methods and module functions, float and double) are called "
+          "with random and boundary inputs and compared bit for bit with a C++ program (c20_cref.cpp) that calls the library of /repo's working "
+          "tree directly on the same bit patterns; module functions called with python floats may resolve to the float or the double overload, "
+          "either reference is accepted."),
+    assumptions=["scalar-binding-vs-C++ agreement is checked bit for bit on 67 representative bindings (py/c20_scalar.py vs py/c20_cref.cpp, 400/4000 inputs each); "
+                 "the remaining scalar bindings are thin wrappers of the same kind, and the C++ functions themselves are decided by the C04..C18 monitors",
                  "integer operands are non-zero and small, shift counts below 8: inputs for which the scalar C++ operation itself is undefined say nothing about the property",
                  "overloads with arguments of type object/tuple/list/dict/str are skipped and counted (unsupported_types in the evidence)",
                  "ThreadSanitizer sees only the interleavings that occurred; the pool reports how many range pairs truly overlapped in time"],
@@ -24,6 +29,6 @@ PROP = dict(
     level_text=("All ~2,800 vectorised overloads the module exports are driven (discovered from signatures); partitions, orders and thread schedules are sampled: "
                 ">= 10 pool runs per dispatching case in quick, >= 36 in thorough, with adversarial partitions forced by the pool; data races are looked for by "
                 "ThreadSanitizer on the interleavings that occurred (thorough)."),
-    level_note="partitions and schedules are sampled, not enumerated; scalar-binding-vs-C++ agreement is delegated to the C++ monitors",
+    level_note="partitions and schedules are sampled, not enumerated; scalar-binding-vs-C++ agreement is sampled on 67 bindings",
     custom="c20",
 )
